@@ -2,7 +2,14 @@
 from props import enginecore
 
 MODULE = "EngineCore"
-META = {"spec": ["EngineCore", "BarterSystem", "AccountLink", "Connectivity"]}
+META = {
+    "spec": ["EngineCore", "BarterSystem", "AccountLink", "Connectivity"],
+    "technique": "TLA+ specs model-checked with TLC (EngineCore over a three-exchange world, BarterSystem with a data-only exchange, "
+                 "AccountLink); the connectivity invariant additionally PROVED for any number of exchanges with TLAPS (inductive "
+                 "invariant of Connectivity.tla; Apalache as a second engine) and tied to EngineCore by a TLC refinement check; "
+                 "two-way conformance: TLC-generated behaviours replayed into the real Engine, recorded traces of the engine, of the "
+                 "real SystemBuilder composition and of ExecutionManager::init's account stream validated by TLC against the specs",
+}
 
 
 def check(ctx):
